@@ -34,7 +34,8 @@ func run(pass *analysis.Pass) (any, error) {
 	for node, m := range code.Matches(pass, checkDoubleNegationQ) {
 		report.Report(pass, node, "negating a boolean twice has no effect; is this a typo?", report.Fixes(
 			edit.Fix("Turn into single negation", edit.ReplaceWithNode(pass.Fset, node, m.State["single"].(ast.Node))),
-			edit.Fix("Remove double negation", edit.ReplaceWithNode(pass.Fset, node, m.State["x"].(ast.Node)))))
+			// Use the operand as it was written: x has lost its parentheses, and '!!(a || b) && c' isn't 'a || b && c'.
+			edit.Fix("Remove double negation", edit.ReplaceWithNode(pass.Fset, node, m.State["single"].(*ast.UnaryExpr).X))))
 	}
 	return nil, nil
 }
